@@ -130,6 +130,24 @@ PROPS = {    "C01": {
         "assumptions": ["a step counts as executing while its label is 'running' (includes waiting out a retry interval)", "termination for every k: every path must end with Schedule returned (deadlock/livelock are violations)"] + RUN_ASSUME,
         "outside_claim": COMMON_OUTSIDE + RUN_OUTSIDE,
     },
+    "C08": {
+        "obligations": [
+            {"name": "C08.latest", "pkg": "./internal/client", "replay": "R1",
+             "quick": {"entry": "VerifHarness_C08_latest", "flags": ["-unwind", "16", "-stub", "(*@/internal/sock.Client).Request=sock-request", "-stub", "@/internal/persistence/model.StatusFromJSON=json-lookup"], "sample_paths": 2,
+                       "bounds": {"socket": "live | dead", "history": "latest status (all 5 values) | none today | none | unreadable"}}},
+            {"name": "C08.byid", "pkg": "./internal/client", "replay": "R1",
+             "quick": {"entry": "VerifHarness_C08_byid", "flags": ["-unwind", "16", "-stub", "(*@/internal/sock.Client).Request=sock-request", "-stub", "@/internal/persistence/model.StatusFromJSON=json-lookup"], "sample_paths": 2,
+                       "bounds": {"socket": "live (same run | other run) | dead", "persisted": "all 5 values"}}},
+            run_ob("C08.persist", "VerifHarness_RUN_C08_n3", 0, "VerifHarness_RUN_C08_n3", 1, bq={"N": 3, "R": 1}, bt={"N": 3, "R": 1},
+                   must=["C08.persist/run-in-progress-is-not-recorded-as-succeeded"]),
+            run_ob("C08.persist-d1", "VerifHarness_RUN_C08_n2", 1, "VerifHarness_RUN_C08_n2", 2, bq={"N": 2, "R": 1}, bt={"N": 2, "R": 1},
+                   must=["C08.persist/run-in-progress-is-not-recorded-as-succeeded"]),
+        ],
+        "assumptions": ["(*sock.Client).Request summarised: no live listener => 'dial failed' error, live => the registered payload, hung peer => ErrTimeout; model.StatusFromJSON succeeds exactly on registered payloads",
+                        "history store is a recording fake (C06/C07 own the real one)",
+                        "C08.persist: the status snapshot the agent persists after each finished step is Scheduler.Status evaluated by the done-channel consumer, as agent.Run does"] + RUN_ASSUME,
+        "outside_claim": COMMON_OUTSIDE + RUN_OUTSIDE + ["the agent's own write protocol and a kill at each of its system calls (C08.persist over agent.Run, C08.final field mapping, C08.restart): not built", "PID reuse, socket path collisions"],
+    },
     "C09": {
         "obligations": [
             {"name": "C09.tick", "pkg": "./internal/scheduler", "replay": "R1t", "labels_unordered": True,
